@@ -9,6 +9,7 @@ A breaking variant that is not flagged, or an equivalence variant that is, is a 
 reported in the evidence and on stdout, it does not change the property verdict.
 """
 import json
+import warnings
 import os
 import re
 import shutil
@@ -27,6 +28,7 @@ def _baseline_keys(prop, root):
 
 
 def _run_one(args):
+    warnings.filterwarnings("ignore", category=SyntaxWarning)
     prop, root, v, base = args
     from ..cli import run_check
     from ..core.model import AnchorError
